@@ -237,6 +237,9 @@ def _check_klatt(case):
         if missing:
             viols.append(Viol("open-hierarchy", f"{tag}: tiers missing after open: {missing[:3]}"))
     exp = [(k, lo, hi, list(E)) for k, lo, hi, E in d0]
+    if mods:
+        call(kg.save, out)  # the same live object is saved BEFORE it is modified, too (save - modify - save)
+        n += 1
     for mi, (addr, fs) in enumerate(mods):
         if mi > 0:
             # a save between two modifications of the SAME live KlattGrid must not freeze or disturb anything
